@@ -598,3 +598,94 @@ pub fn check_c06_c09(bytes: &[u8], s: &NormalizerSettings, ms: &CharsetMatches) 
     }
     out
 }
+
+/// C13 (window part): a covering window can be replaced by any other covering window
+pub fn check_c13_window(bytes: &[u8], s: &NormalizerSettings, real_lines: &[String], alt: (usize, usize)) -> Vec<Found> {
+    let mut out = vec![];
+    let n = bytes.len();
+    if n == 0 || s.steps == 0 || s.steps.checked_mul(s.chunk_size).map(|w| n > w).unwrap_or(true) {
+        return out;
+    }
+    for (st, ch) in [(1usize, n), alt] {
+        if st.checked_mul(ch).map(|w| n > w).unwrap_or(true) || st == 0 {
+            continue;
+        }
+        let mut t = s.clone();
+        t.steps = st;
+        t.chunk_size = ch;
+        let other = outcome_lines(&run_real(bytes, &t));
+        if other != real_lines {
+            out.push(v("C13", format!("input of {} bytes fits steps={} chunk_size={} and steps={} chunk_size={} but the results differ", n, s.steps, s.chunk_size, st, ch)));
+        }
+    }
+    out
+}
+
+/// C13 (text part): one text in every encoding that round-trips it, each probed alone with the
+/// fall-back off and a covering window: same accept / reject and same chaos
+pub fn check_c13_text(text: &str, s: &NormalizerSettings, with_bom: bool) -> (Vec<Found>, usize) {
+    let mut out = vec![];
+    let mut seen: Vec<(String, Option<u32>)> = vec![];
+    for enc in supported() {
+        let codec = match encoding_from_whatwg_label(&enc) {
+            Some(c) => c,
+            None => continue,
+        };
+        let body = match codec.encode(text, encoding::EncoderTrap::Strict) {
+            Ok(b) => b,
+            Err(_) => continue,
+        };
+        if codec.decode(&body, DecoderTrap::Strict).ok().as_deref() != Some(text) || body.is_empty() {
+            continue;
+        }
+        let mut bytes = vec![];
+        let mut marked = false;
+        if with_bom {
+            for (e, m) in marks() {
+                if e == enc {
+                    bytes.extend_from_slice(m);
+                    marked = true;
+                }
+            }
+        }
+        if (enc == "utf-16le" || enc == "utf-16be") && !marked {
+            continue;
+        }
+        bytes.extend_from_slice(&body);
+        if identify_mark(&bytes).map(|e| e != enc).unwrap_or(false) {
+            continue; // the encoded text happens to start with another encoding's mark
+        }
+        let mut r = restricted(s, &enc);
+        r.enable_fallback = false;
+        r.steps = 1;
+        r.chunk_size = bytes.len();
+        if bytes.len() > charset_normalizer_rs::consts::TOO_BIG_SEQUENCE {
+            continue;
+        }
+        match run_real(&bytes, &r) {
+            Outcome::Ok(ms) => {
+                let verdict = if ms.len() == 1 { Some(fbits(ms[0].chaos())) } else { None };
+                if ms.len() == 1 && ms[0].decoded_payload() != Some(text) {
+                    out.push(v("C13", format!("{}: exposed text differs from the encoded text", enc)));
+                }
+                if enc == "ascii" && verdict.is_none() {
+                    continue;
+                }
+                seen.push((enc.clone(), verdict));
+            }
+            _ => out.push(v("C13", format!("{}: restricted run failed", enc))),
+        }
+    }
+    if let Some((e0, v0)) = seen.first().cloned() {
+        for (e, vv) in &seen {
+            if *vv != v0 {
+                out.push(v("C13", format!("same text, covering window: {} gives {:?} but {} gives {:?} (chaos bits / None = rejected)", e0, v0, e, vv)));
+            }
+        }
+    }
+    (out, seen.len())
+}
+
+fn identify_mark(bytes: &[u8]) -> Option<String> {
+    hooks::identify_sig_or_bom(bytes).0
+}
